@@ -1635,7 +1635,7 @@ pub fn run(tier: &str, seed: u64, out: &Path) -> i32 {
     for rep in 0..reps {
         let mut idx = rep;
         for class in ["ok", "r", "s", "u", "x", "f"] {
-            for (n_alts, with_default, target) in [(1usize, true, usize::MAX), (1, true, 0), (2, true, 1), (2, false, 0), (1, false, 0), (2, true, usize::MAX)] {
+            for (n_alts, with_default, target) in [(1usize, true, usize::MAX), (1, true, 0), (2, true, 1), (2, false, 0), (2, false, 1), (1, false, 0), (2, true, usize::MAX)] {
                 for last in [true, false] {
                     idx += 1;
                     if class == "ok" && idx % 2 == 0 {
